@@ -90,7 +90,7 @@ class State:
 
 
 class Frame:
-    __slots__ = ("fn", "depth", "bb", "ret_to", "consts")
+    __slots__ = ("fn", "depth", "bb", "ret_to", "consts", "tsub")
 
     def __init__(self, fn, depth):
         self.fn = fn
@@ -98,6 +98,7 @@ class Frame:
         self.bb = 0
         self.ret_to = None  # (dest place, target bb) in caller
         self.consts = None  # const generic parameters bound at the call (`take::<6>()`): name -> integer
+        self.tsub = None    # type parameters bound at the call (`check::<u16>(v)`): name -> concrete type
 
     def root(self, local):
         return ("L", self.depth, local)
@@ -377,9 +378,10 @@ class Explorer:
     def const_val(self, c):
         if "fn" in c:
             res = c["fn"].get("res")
+            ta = tuple(c["fn"].get("targs") or ())
             if res and res.get("path") in self.F.fns:
-                return ("fn", res["path"])
-            return ("fn", c["fn"]["path"])
+                return ("fn", res["path"], ta)
+            return ("fn", c["fn"]["path"], ta)
         if "variant" in c:
             ty = c["ty"].split("<")[0]
             return AGG(ty, c["variant"])
@@ -668,6 +670,9 @@ class Explorer:
                     return SYM(("not", a))
                 return SYM(("not", a))
             if rv["op"] == "PtrMetadata":
+                av = self.read_loc(st, a[1], a[2]) if a[0] == "ref" else a
+                if av[0] == "arr":
+                    return C(len(av[1]), "usize")        # length of a slice that is a known array
                 return SYM(self.cap(("len", a)))
             return SYM(self.cap(("un", rv["op"], a)))
         if k == "cast":
@@ -917,6 +922,7 @@ class Explorer:
             g.bb = f.bb
             g.ret_to = f.ret_to
             g.consts = f.consts
+            g.tsub = f.tsub
             out.append(g)
         return out
 
@@ -993,6 +999,10 @@ class Explorer:
         site = (fr.fn["path"], t.get("line"))
         args = [self.operand(st, fr, a) for a in t["args"]]
         dest, target = t["dest"], t["t"]
+        if info is not None and fr.tsub and info.get("targs") and any(t_ in fr.tsub for t_ in info["targs"]):
+            # inside an inlined generic helper instantiated at a primitive type: `T::default()` is `u16::default()`
+            info = dict(info)
+            info["targs"] = [fr.tsub.get(t_, t_) for t_ in info["targs"]]
         if info is None:
             # call through a function pointer: when the pointer's value is known on this path (a reified fn item or a
             # non-capturing closure coerced to `fn(..)`, passed down by an inlined caller), the call goes to that body
@@ -1003,7 +1013,7 @@ class Explorer:
                 return self.enter(st, stack, fr, self.F.fns[fv[1]], [fv] + args, dest, target, None, closure=True)
             if fv[0] == "fn" and fv[1] in self.F.fns and len(stack) < 12:
                 cf = self.F.fns[fv[1]]
-                info = {"path": fv[1], "name": cf.get("name"), "targs": [], "local": True, "impl_self": cf.get("impl_self", "")}
+                info = {"path": fv[1], "name": cf.get("name"), "targs": list(fv[2]) if len(fv) > 2 else [], "local": True, "impl_self": cf.get("impl_self", "")}
                 path = fv[1]
                 self._cur_mut_sig = tuple(i for i in range(cf.get("argc", 0)) if cf["locals"][i + 1].startswith("&mut "))
             else:
@@ -1034,7 +1044,7 @@ class Explorer:
                 cargs = args[1]
                 args = list(cargs[1]) if cargs[0] == "tup" else ([] if cargs[0] == "unit" else [cargs])
                 cf = self.F.fns[fv[1]]
-                info = {"path": fv[1], "name": cf.get("name"), "targs": [], "local": True, "impl_self": cf.get("impl_self", "")}
+                info = {"path": fv[1], "name": cf.get("name"), "targs": list(fv[2]) if len(fv) > 2 else [], "local": True, "impl_self": cf.get("impl_self", "")}
                 path = fv[1]
                 name = info["name"]
                 self._cur_mut_sig = tuple(i for i in range(cf.get("argc", 0)) if cf["locals"][i + 1].startswith("&mut "))
@@ -1170,8 +1180,18 @@ class Explorer:
                 elif fr is not None and fr.consts and ta in fr.consts:
                     cm[gname] = fr.consts[ta]
             nf.consts = cm or None
+            tm = {}
+            for gname, ta in zip(gens, targs):
+                if gname.startswith("'") or gname in cm:
+                    continue
+                if fr is not None and fr.tsub and ta in fr.tsub:
+                    ta = fr.tsub[ta]
+                if re.match(r"^(u8|u16|u32|u64|u128|usize|i8|i16|i32|i64|i128|isize|bool)$", ta):
+                    tm[gname] = ta          # (only primitive instantiations are needed: they select std models)
+            nf.tsub = tm or None
         elif closure and fr is not None:
             nf.consts = fr.consts
+            nf.tsub = fr.tsub
         for i, a in enumerate(args):
             st.heap[(nf.root(i + 1), ())] = a
         if callee.get("kind") == "Closure" and callee["argc"] == 2 and len(args) != 2:
@@ -1996,6 +2016,67 @@ class Explorer:
                 self.finish_path(st, None, "diverge")
                 return "stop"
             return ("fork", alts)
+        # ---- arrayvec::ArrayVec<u8, N>: a byte vector with a fixed capacity - the same word model as Vec<u8>
+        if p.startswith("arrayvec::ArrayVec::<T, CAP>::") and info.get("targs") and info["targs"][0] == "u8":
+            nm_ = p.split("::")[-1]
+            if nm_ == "new" and not args:
+                return ret(("vec", ()))
+            if nm_ == "push" and len(args) == 2 and args[0][0] == "ref":
+                cur = self.read_loc(st, args[0][1], args[0][2])
+                if cur[0] == "vec":
+                    self.write_loc(st, args[0][1], args[0][2], ("vec", cur[1] + (args[1],)))
+                    return ret(UNIT())
+            if nm_ in ("len",) and len(args) == 1 and args[0][0] == "ref":
+                cur = self.read_loc(st, args[0][1], args[0][2])
+                if cur[0] == "vec" and all(isinstance(x, tuple) and x and x[0] in ("c", "sym") for x in cur[1]):
+                    return ret(C(len(cur[1]), "usize"))
+        # ---- byte-level helpers on fully known values (concrete evaluation of decoders on concrete inputs)
+        def known_arr(a):
+            for _ in range(2):
+                if a[0] == "ref":
+                    a = self.read_loc(st, a[1], a[2])
+            return a if (a[0] == "arr" and all(x[0] == "c" and isinstance(x[1], int) for x in a[1])) else None
+        if p in ("std::slice::<impl [T]>::len",) and len(args) == 1 and known_arr(args[0]) is not None:
+            return ret(C(len(known_arr(args[0])[1]), "usize"))
+        mfb = re.match(r"^std::num::<impl (u8|u16|u32|u64|u128|usize)>::from_(be|le)_bytes$", p)
+        if mfb and len(args) == 1 and known_arr(args[0]) is not None:
+            bs = [x[1] & 0xFF for x in known_arr(args[0])[1]]
+            return ret(C(int.from_bytes(bytes(bs), "big" if mfb.group(2) == "be" else "little"), mfb.group(1)))
+        mtb = re.match(r"^std::num::<impl (u8|u16|u32|u64|u128)>::to_(be|le)_bytes$", p)
+        if mtb and len(args) == 1 and args[0][0] == "c" and isinstance(args[0][1], int):
+            w = int(mtb.group(1)[1:]) // 8
+            bs = (args[0][1] & ((1 << (8 * w)) - 1)).to_bytes(w, "big" if mtb.group(2) == "be" else "little")
+            return ret(("arr", tuple(C(b, "u8") for b in bs)))
+        if EXT_INDEX_RE.search(p) and len(args) == 2 and known_arr(args[0]) is not None:
+            items = known_arr(args[0])[1]
+            ix = args[1]
+            lo = hi = None
+            if ix[0] == "c" and isinstance(ix[1], int):
+                if 0 <= ix[1] < len(items):
+                    tmpk = ("CS", "elt", id(items), ix[1])
+                    st.heap[(tmpk, ())] = items[ix[1]]
+                    return ret(("ref", tmpk, ()))
+            elif ix[0] == "agg" and all(o[0] == "c" for o in ix[3]):
+                if ix[2] == "RangeTo":
+                    lo, hi = 0, ix[3][0][1]
+                elif ix[2] == "RangeFrom":
+                    lo, hi = ix[3][0][1], len(items)
+                elif ix[2] == "Range":
+                    lo, hi = ix[3][0][1], ix[3][1][1]
+                elif ix[2] == "RangeFull":
+                    lo, hi = 0, len(items)
+                if lo is not None and 0 <= lo <= hi <= len(items):
+                    self._cs_n = getattr(self, "_cs_n", 0) + 1
+                    tmpk = ("CS", "sub", self._cs_n)
+                    st.heap[(tmpk, ())] = ("arr", tuple(items[lo:hi]))
+                    return ret(("ref", tmpk, ()))
+        if p in ("std::convert::TryInto::try_into", "<T as std::convert::TryInto<U>>::try_into") and len(args) == 1 and known_arr(args[0]) is not None \
+                and info.get("targs") and re.match(r"^\[u8; (\d+)\]$", info["targs"][-1]):
+            nn = int(re.match(r"^\[u8; (\d+)\]$", info["targs"][-1]).group(1))
+            RES = "std::result::Result"
+            if len(known_arr(args[0])[1]) == nn:
+                return ret(AGG(RES, "Ok", (known_arr(args[0]),)))
+            return ret(AGG(RES, "Err", (SYM(("tryfromsliceerror",)),)))
         # ---- bool::then_some(x): Some(x) when the flag is set, None otherwise
         if p == "std::bool::<impl bool>::then_some" and len(args) == 2:
             OPT = "std::option::Option"
@@ -2036,6 +2117,18 @@ class Explorer:
                     nn = int(mm.group(1))
                 elif fr.consts and ta in fr.consts:
                     nn = fr.consts[ta]
+            if nn is not None and known_arr(args[0]) is not None:
+                # concrete input: decided, and the chunk is the known prefix
+                items = known_arr(args[0])[1]
+                OPT = "std::option::Option"
+                if nn > len(items):
+                    return ret(AGG(OPT, "None"))
+                self._cs_n = getattr(self, "_cs_n", 0) + 1
+                k1, k2_ = ("CS", "chunk", self._cs_n), ("CS", "rest", self._cs_n)
+                st.heap[(k1, ())] = ("arr", tuple(items[:nn]))
+                st.heap[(k2_, ())] = ("arr", tuple(items[nn:]))
+                l_, r_ = ("ref", k1, ()), ("ref", k2_, ())
+                return ret(AGG(OPT, "Some", ((("tup", (l_, r_)) if p.endswith("split_first_chunk") else l_),)))
             if nn is not None:
                 base = args[0]
                 n_ = C(nn, "usize")
@@ -2604,6 +2697,7 @@ class Explorer:
         self.enter(st, stack, fr, callee, cargs, None, None, cont, closure=True)
 
 
+EXT_INDEX_RE = re.compile(r"(::index::<impl std::ops::Index(Mut)?<I> for \[T\]>::index$)|(impl std::ops::Index<I> for \[T; N\]>::index$)")
 PRIM_OP_RE = re.compile(r"^<&?(?:'\w+ )?(u8|u16|u32|u64|u128|usize|i8|i16|i32|i64|i128|isize) as std::ops::(?:Add|Sub|Mul)(?:Assign)?<&?(?:'\w+ )?\1>>::(add|sub|mul|add_assign|sub_assign|mul_assign)$")
 SNAP_RE = re.compile(r"(::index(_mut)?$)|(::copy_from_slice$)|(ArcPayload::new$)|(::split_at(_mut)?$)|(Vec::<T, A>::(remove|swap_remove|insert|split_off)$)|(::clone_from_slice$)|(^std::ops::(Add::add|Sub::sub|Mul::mul)$)|(^core::panicking::)|(^std::panicking::)")
 
